@@ -4,6 +4,11 @@ import json, os
 here = os.path.dirname(os.path.dirname(os.path.abspath(__file__)))
 ALL = ['C%02d' % i for i in range(1, 21)]
 CLAIMED = {
+ 'C13': dict(
+   text='Theorems over the Gallina model of the origin policy (the gate is the first step of request handling: a refused origin returns the refusal with the server state untouched whatever the rest of handling is; exactly when it refuses; the allowed set of each configuration form incl. the forwarded-header rule; Access-Control-Allow-Origin only for the request\'s own allowed Origin and at most once; Allow-Credentials iff enabled; empty allow-list = no check and no CORS header) for all inputs, no axioms; model compared with both servers on the configuration x environment x request-kind product on every run, with before/after state snapshots.',
+   note='Trusted: Coq kernel; hand-written model Cors.v and its differential run through the real WSGIApp/ASGIApp; header values restricted to latin-1; callable policies represented by their accepted set; empty Origin read as absent.',
+   technique='Coq proof (case analysis on configuration forms) + model/implementation correspondence by vm_compute',
+   ref='5 C13'),
  'C02': dict(
    text='Theorems over the Gallina model of Payload (payload = text-channel encodings joined by single U+001E; decode(encode ps) = the same packets in order when no text contains the separator and the count is within the limit; the form-encoded variant decodes like the payload it carries; more segments than the limit is refused before any packet is decoded; a successful decode decoded every segment and one failing segment fails the body) for all inputs, no axioms; model compared with engineio.payload.Payload on generated lists, exhaustive short adversarial strings and random long ones on every run.',
    note='Trusted: Coq kernel; hand-written model Payload.v on Packet.v and its differential run; json, int() and urllib.parse.parse_qs are standard-library oracles. Absence of hangs in the implementation is observed under a watchdog (testing); the model function is total by construction.',
